@@ -2,8 +2,8 @@ package main
 
 import (
 	"crypto/sha1"
-	"flag"
 	"encoding/json"
+	"flag"
 	"fmt"
 	"os"
 	"path"
@@ -734,6 +734,20 @@ func run(c *hx.Ctx) error {
 			// input differs from the shrunk case in one file by at most two tokens
 			if finding = narrowKnown(c, min, fl.sig, knownSig); finding != "" {
 				res.Hist("build-narrow-match-" + finding)
+			}
+		}
+		if finding == "" {
+			// the class of a recorded finding: same signature, the finding's trigger, and no such failure without it
+			// (classes.go)
+			finding = classKnown(min, fl.sig, knownSig, c.HasFinding, func(bb lexh.BuildCase) string {
+				r2 := buildOne(bb)
+				if cl := buildClause(r2); cl != "" {
+					return sigOf(cl, r2)
+				}
+				return ""
+			})
+			if finding != "" {
+				res.Hist("build-class-match-" + finding)
 			}
 		}
 		if os.Getenv("VERIF_C04_SHRINK_ALL") != "" {
